@@ -377,4 +377,99 @@ theorem programParse_unparsed (core : Ctx) (registry : List Ctx) (argv : List To
           have : r = _ := (Except.ok.inj h).symm
           rw [this]; exact ⟨rfl, rfl⟩
 
+/-! ### one-step effect of a core flag / a shadowing task flag inside a task context -/
+
+theorem flagArg_of_none (m : M) (h : m.flag = none) : m.flagArg = none := by unfold M.flagArg; rw [h]
+theorem waiting_of_noflag (m : M) (h : m.flag = none) : m.waiting = false := by unfold M.waiting; rw [flagArg_of_none m h]
+theorem checkAmbiguity_of_noflag (m : M) (v : Tok) (h : m.flag = none) : checkAmbiguity m v = .ok () := by
+  unfold M.checkAmbiguity; rw [flagArg_of_none m h]
+theorem completeFlag_of_noflag (m : M) (h : m.flag = none) : completeFlag m = .ok m := by
+  unfold M.completeFlag; rw [flagArg_of_none m h]
+
+theorem core_bool_in_core (m : M) (ic : Ctx) (tok : Tok) (i : Nat) (a a' : Arg) (hst : m.st = .context)
+    (hci : m.curIsInitial = true) (hi : m.initial = some ic) (hfl : m.flag = none)
+    (hf : assoc? tok ic.flags = some i) (ha : ic.args[i]? = some a) (ht : a.takesValue = false)
+    (hs : a.setValue (.b true) = .ok a') :
+    handle m tok = .ok { m with initial := some { ic with args := ic.args.set i a' }, flag := some (.cur, i), flagGotValue := false } := by
+  have hctx : m.ctx = some ic := by unfold M.ctx; rw [hci, hi]; rfl
+  unfold M.handle
+  simp only [hst, hctx, hf, Option.isSome_some, if_true, reduceCtorEq, if_false]
+  unfold M.switchToFlag
+  simp only [checkAmbiguity_of_noflag m tok hfl, completeFlag_of_noflag m hfl, bind, Except.bind, hctx, pure, Except.pure,
+    Bool.false_eq_true, if_false, hf]
+  simp [M.flagArg, M.updFlagArg, M.ctx, M.setCtx, hci, hi, ha, ht, hs, hst]
+
+theorem core_bool_in_task (m : M) (c ic : Ctx) (tok : Tok) (i : Nat) (a a' : Arg) (hst : m.st = .context)
+    (hci : m.curIsInitial = false) (hc : m.cur = some c) (hi : m.initial = some ic) (hfl : m.flag = none)
+    (hcf : assoc? tok c.flags = none) (hcinv : assoc? tok c.inverse = none) (hl : m.lookupCtx tok = none)
+    (hf : assoc? tok ic.flags = some i) (ha : ic.args[i]? = some a) (hh : a.spec.names.headD [] ≠ "help".toList)
+    (ht : a.takesValue = false) (hs : a.setValue (.b true) = .ok a') :
+    handle m tok = .ok { m with initial := some { ic with args := ic.args.set i a' }, flag := some (.initial, i), flagGotValue := false } := by
+  have hctx : m.ctx = some c := by unfold M.ctx; rw [hci, hc]; rfl
+  unfold M.handle
+  simp only [hst, hctx, hcf, hcinv, Option.isSome_none, Bool.false_eq_true, if_false, reduceCtorEq,
+    waiting_of_noflag m hfl, hi, hf, Option.isSome_some, hci, Bool.not_false, Bool.and_self, Bool.not_true, Bool.and_false,
+    hl, if_true, Option.bind_some, ha, hh]
+  unfold M.switchToFlag
+  simp only [checkAmbiguity_of_noflag m tok hfl, completeFlag_of_noflag m hfl, bind, Except.bind, hctx, pure, Except.pure,
+    Bool.false_eq_true, if_false, hcf, hi, Option.bind_some, hf]
+  simp [M.flagArg, M.updFlagArg, ha, ht, hs, hst, hci]
+
+theorem shadow_bool_in_task (m : M) (c : Ctx) (tok : Tok) (i : Nat) (a a' : Arg) (hst : m.st = .context)
+    (hci : m.curIsInitial = false) (hc : m.cur = some c) (hfl : m.flag = none)
+    (hf : assoc? tok c.flags = some i) (ha : c.args[i]? = some a) (ht : a.takesValue = false)
+    (hs : a.setValue (.b true) = .ok a') :
+    handle m tok = .ok { m with cur := some { c with args := c.args.set i a' }, flag := some (.cur, i), flagGotValue := false } := by
+  have hctx : m.ctx = some c := by unfold M.ctx; rw [hci, hc]; rfl
+  unfold M.handle
+  simp only [hst, hctx, hf, Option.isSome_some, if_true, reduceCtorEq, if_false]
+  unfold M.switchToFlag
+  simp only [checkAmbiguity_of_noflag m tok hfl, completeFlag_of_noflag m hfl, bind, Except.bind, hctx, pure, Except.pure,
+    Bool.false_eq_true, if_false, hf]
+  simp [M.flagArg, M.updFlagArg, M.ctx, M.setCtx, hci, hc, ha, ht, hs, hst]
+
+theorem shadow_value_in_task (m : M) (c : Ctx) (tok : Tok) (i : Nat) (a : Arg) (hst : m.st = .context)
+    (hci : m.curIsInitial = false) (hc : m.cur = some c) (hfl : m.flag = none)
+    (hf : assoc? tok c.flags = some i) (ha : c.args[i]? = some a) (ht : a.takesValue = true) :
+    handle m tok = .ok { m with flag := some (.cur, i), flagGotValue := false } := by
+  have hctx : m.ctx = some c := by unfold M.ctx; rw [hci, hc]; rfl
+  unfold M.handle
+  simp only [hst, hctx, hf, Option.isSome_some, if_true, reduceCtorEq, if_false]
+  unfold M.switchToFlag
+  simp only [checkAmbiguity_of_noflag m tok hfl, completeFlag_of_noflag m hfl, bind, Except.bind, hctx, pure, Except.pure,
+    Bool.false_eq_true, if_false, hf]
+  simp [M.flagArg, M.ctx, hci, hc, ha, ht, hst]
+/-- step 1 of a value-taking core flag inside a task: the machine points at the CORE argument, nothing else changes -/
+theorem core_value_flag_in_task (m : M) (c ic : Ctx) (tok : Tok) (i : Nat) (a : Arg) (hst : m.st = .context)
+    (hci : m.curIsInitial = false) (hc : m.cur = some c) (hi : m.initial = some ic) (hfl : m.flag = none)
+    (hcf : assoc? tok c.flags = none) (hcinv : assoc? tok c.inverse = none) (hl : m.lookupCtx tok = none)
+    (hf : assoc? tok ic.flags = some i) (ha : ic.args[i]? = some a) (hh : a.spec.names.headD [] ≠ "help".toList)
+    (ht : a.takesValue = true) :
+    handle m tok = .ok { m with flag := some (.initial, i), flagGotValue := false } := by
+  have hctx : m.ctx = some c := by unfold M.ctx; rw [hci, hc]; rfl
+  unfold M.handle
+  simp only [hst, hctx, hcf, hcinv, Option.isSome_none, Bool.false_eq_true, if_false, reduceCtorEq,
+    waiting_of_noflag m hfl, hi, hf, Option.isSome_some, hci, Bool.not_false, Bool.and_self, Bool.not_true, Bool.and_false,
+    hl, if_true, Option.bind_some, ha, hh]
+  unfold M.switchToFlag
+  simp only [checkAmbiguity_of_noflag m tok hfl, completeFlag_of_noflag m hfl, bind, Except.bind, hctx, pure, Except.pure,
+    Bool.false_eq_true, if_false, hcf, hi, Option.bind_some, hf]
+  simp [M.flagArg, ha, ht, hst, hci]
+
+/-- step 2: the next token (not a flag of the task) becomes the value of the CORE argument, whatever the task's
+    positionals are; the task context is untouched -/
+theorem core_value_received_in_task (m : M) (c ic : Ctx) (v : Tok) (i : Nat) (a a' : Arg) (hst : m.st = .context)
+    (hci : m.curIsInitial = false) (hc : m.cur = some c) (hi : m.initial = some ic) (hfl : m.flag = some (.initial, i))
+    (hcf : assoc? v c.flags = none) (hcinv : assoc? v c.inverse = none)
+    (ha : ic.args[i]? = some a) (ht : a.takesValue = true) (hr : a.raw = none) (ho : a.spec.optional = false)
+    (hk : a.spec.kind ≠ .list) (hs : a.setValue (.s v) = .ok a') :
+    handle m v = .ok { m with initial := some { ic with args := ic.args.set i a' }, flagGotValue := true } := by
+  have hctx : m.ctx = some c := by unfold M.ctx; rw [hci, hc]; rfl
+  have hfa : m.flagArg = some a := by unfold M.flagArg; rw [hfl]; simp [hi, ha]
+  have hw : m.waiting = true := by unfold M.waiting; rw [hfa]; simp [ht, hr, hk]
+  unfold M.handle
+  simp only [hst, hctx, hcf, hcinv, Option.isSome_none, Bool.false_eq_true, if_false, reduceCtorEq, hw, if_true]
+  unfold M.seeValue M.checkAmbiguity
+  simp only [hfa, ho, bind, Except.bind, ht, if_true, hs]
+  simp [M.updFlagArg, hfl, hi, hst]
 end Inv
